@@ -224,44 +224,52 @@ def run_stream(c, focus):
     closed_form_equivalence(c)
     apalache_inductive(c, full=c.thorough)
     # (d) real constants: graph -> every edge replayed on the real code
-    depth = 4 if c.thorough else 3
-    g = model_graph_real(c, depth, ("c11t" if c.thorough else "c11") if focus == "C11" else ("thorough" if c.thorough else "quick"))
-    script, expect, walks = scripts_from_graph(g, c.seed)
-    spath = os.path.join(wd, "graph.script")
-    open(spath, "w").write(script)
-    if not c.thorough:
-        script_d, expect_d, _ = scripts_from_graph(g, c.seed, every=3)
-        spath_d = os.path.join(wd, "graph-dbg.script")
-        open(spath_d, "w").write(script_d)
+    if focus == "C11":
+        plans = [(4, "c11t")] if c.thorough else [(3, "c11")]
     else:
-        spath_d, expect_d = spath, expect
-    c.cov["graph_edges"] = len(g.edges)
-    c.cov["graph_states"] = len(g.nodes)
-    c.cov["replay_walks"] = len(walks)
+        # depth 4 over the thorough alphabets is 3.2 M calls per build (TLC needs hours to validate them): thorough takes the
+        # wide alphabets to depth 3 and the quick alphabets to depth 4 instead
+        plans = [(3, "thorough"), (4, "quick")] if c.thorough else [(3, "quick")]
+    graphs = []
+    for gi, (depth, alpha) in enumerate(plans):
+        g = model_graph_real(c, depth, alpha)
+        script, expect, walks = scripts_from_graph(g, c.seed)
+        spath = os.path.join(wd, "graph%d.script" % gi)
+        open(spath, "w").write(script)
+        script_d, expect_d, _ = scripts_from_graph(g, c.seed, every=3)
+        spath_d = os.path.join(wd, "graph%d-dbg.script" % gi)
+        open(spath_d, "w").write(script_d)
+        graphs.append((spath, expect, spath_d, expect_d))
+        c.cov["graph_edges"] = c.cov.get("graph_edges", 0) + len(g.edges)
+        c.cov["graph_states"] = c.cov.get("graph_states", 0) + len(g.nodes)
+        c.cov["replay_walks"] = c.cov.get("replay_walks", 0) + len(walks)
+        del g
+    c.cov["graph_plans"] = ["depth %d alphabet %s" % p for p in plans]
     traces = 0
     builds = ["std-rel", "std-dbg"]
     drift_total = 0
     for b in builds:
         binary = vlib.build(b)
-        trace = os.path.join(wd, "graph-%s.ndjson" % b)
-        spath_b, expect_b = (spath_d, expect_d) if b == "std-dbg" else (spath, expect)
-        vlib.run_harness(binary, ["stream-script", "--script", spath_b, "--seed", str(c.seed)], out=trace)
-        nrec = 0
-        for shard, first, cnt in vlib.split_trace(trace):
-            recs0 = vlib.read_ndjson(shard)
-            dr = drift(recs0, expect_b[first:first + cnt])
-            drift_total += len(dr)
-            for i, got, want in dr[:5]:
-                vlib.log("MODEL-DRIFT (%s) event %d: code %s model %s" % (b, first + i, got, want))
-            recs, eps, r = validate_histories(c, shard, b, "graph replay (%s)" % b)
-            traces += len(eps)
-            nrec += cnt
-            c.add_events([e for e in recs if e["ev"] != "new"], key=lambda e: {k: v for k, v in e.items() if k not in ("st", "k")}, sample=1)
-            os.remove(shard)
-            del recs0, recs, eps
-        os.remove(trace)
-        if nrec != len(expect_b):
-            raise vlib.ToolError("script produced %d events, expected %d" % (nrec, len(expect_b)))
+        for gi, (spath, expect, spath_d, expect_d) in enumerate(graphs):
+            trace = os.path.join(wd, "graph%d-%s.ndjson" % (gi, b))
+            spath_b, expect_b = (spath_d, expect_d) if b == "std-dbg" else (spath, expect)
+            vlib.run_harness(binary, ["stream-script", "--script", spath_b, "--seed", str(c.seed)], out=trace)
+            nrec = 0
+            for shard, first, cnt in vlib.split_trace(trace):
+                recs0 = vlib.read_ndjson(shard)
+                dr = drift(recs0, expect_b[first:first + cnt])
+                drift_total += len(dr)
+                for i, got, want in dr[:5]:
+                    vlib.log("MODEL-DRIFT (%s) event %d: code %s model %s" % (b, first + i, got, want))
+                recs, eps, r = validate_histories(c, shard, b, "graph replay (%s)" % b)
+                traces += len(eps)
+                nrec += cnt
+                c.add_events([e for e in recs if e["ev"] != "new"], key=lambda e: {k: v for k, v in e.items() if k not in ("st", "k")}, sample=1)
+                os.remove(shard)
+                del recs0, recs, eps
+            os.remove(trace)
+            if nrec != len(expect_b):
+                raise vlib.ToolError("script produced %d events, expected %d" % (nrec, len(expect_b)))
         # (e) random and test-suite-derived histories
         trace = os.path.join(wd, "rand-%s.ndjson" % b)
         vlib.run_harness(binary, ["stream-rand", "--seed", str(c.seed), "--tier", c.tier], out=trace)
